@@ -1,6 +1,7 @@
 package main
 
 import (
+	"os"
 	"fmt"
 	"go/token"
 	"go/types"
@@ -537,7 +538,7 @@ func (fc *FnCtx) execLookup(st *State, x *ssa.Lookup) {
 			fc.regs[x] = fc.mkVal(mvT, m.Elem())
 		}
 		// values held by a map are well-typed values (lengths >= 0, references below the allocation mark)
-		if isCheapInv(m.Elem()) {
+		if isCheapInv(m.Elem()) && os.Getenv("NOMAPINV") == "" {
 			fc.assume(st, fc.sorts.TypeInv(m.Elem(), mvT, st.alloc))
 		}
 		return
